@@ -263,4 +263,32 @@ def isLeaf (s : St) (c : Nat) : Bool :=
     | some rd => rd.parent != some c
     | none => true)
 
+/-! ### `Composite.run_stream`: how the timings of the sub-requests are collected
+
+A stream is a sequence of items; an item is a sub-request (`op id`, executed inside `RequestTiming`, which yields
+one timing record) or a nested stream (started as a task; its records are gathered — in the order in which the
+streams were created — right before the next sub-request of the enclosing stream, or at its end).
+`collect` mirrors the `timings` list of `run_stream` statement by statement (`timings.append(response)`,
+`timings += stream_timings`); `id`s stand for the executed sub-requests (position in the specification).
+The records carry no key: sub-requests may share a `name` or have none. -/
+inductive Items
+  | nil
+  | op (id : Nat) (rest : Items)
+  | stream (sub : Items) (rest : Items)
+
+/-- `go items pending`: `pending` = results of the streams created and not yet gathered (`streams`) -/
+def collectGo : Items → List (List Nat) → List Nat
+  | .nil, pending => pending.flatten
+  | .op id rest, pending => pending.flatten ++ id :: collectGo rest []
+  | .stream sub rest, pending => collectGo rest (pending ++ [collectGo sub []])
+
+/-- the `dependent_timing` list of a composite whose `requests` are `items` (ids of the sub-requests, in order) -/
+def collect (items : Items) : List Nat := collectGo items []
+
+/-- every sub-request that is executed, in specification order -/
+def allOps : Items → List Nat
+  | .nil => []
+  | .op id rest => id :: allOps rest
+  | .stream sub rest => allOps sub ++ allOps rest
+
 end Ctx
